@@ -300,6 +300,10 @@ def shard_fn(shard, nshards, seed, tier, exe, npairs, ncopies):
             hist = history_cmds(rng, (a, b, c)[hh], hh)
             if hist:
                 rel += "+history"
+        if rng.random() < 0.1:
+            # the second tree is built again after the process-wide string hash has been switched: two objects that hash their member names differently must compare like any others
+            hist = hist + ["HASHFN 1", "PUT 1", "B 1 " + " ".join(b), "HASHFN 0"]
+            sh.count("triples.one_tree_built_under_the_other_string_hash")
         nh = len(hist)
         cmds = ["B 0 " + " ".join(a), "B 1 " + " ".join(b), "B 2 " + " ".join(c)] + hist + [
                 "EQ 0 1", "EQ 1 0", "EQ 1 2", "EQ 2 1", "EQ 0 2", "EQ 2 0", "EQ 0 0", "EQ 1 1", "EQ 2 2", "PUT 0", "PUT 1", "PUT 2"]
@@ -315,7 +319,16 @@ def shard_fn(shard, nshards, seed, tier, exe, npairs, ncopies):
         n += 1
         hist = history_cmds(rng, a, 0) if rng.random() < 0.25 else []
         nh = len(hist)
-        cmds = ["B 0 " + " ".join(a)] + hist + ["DCOPY 0 1 0", "EQ 0 1", "EQ 1 0", "S64 0", "S64 1", "PTRS 0", "PTRS 1", "D 0", "D 1"]
+        # (a fifth of the copies go through a shallow-copy callback of the caller's that answers "serializer data handled" (2) for every node that has none; and in a tenth the
+        #  process-wide string hash is switched between building the source and copying it, so that source and copy hash their member names differently)
+        cm = 3 if rng.random() < 0.2 else 0
+        sw = rng.random() < 0.1
+        cmds = ["HASHFN 0", "B 0 " + " ".join(a)] + hist + (["HASHFN 1"] if sw else []) + ["DCOPY 0 1 %d" % cm, "EQ 0 1", "EQ 1 0", "S64 0", "S64 1", "PTRS 0", "PTRS 1", "D 0", "D 1"]
+        nhist = nh
+        nh += 1 + int(sw)
+        sh.count("copies.through_callback_returning_2" if cm else "copies.default_callback")
+        if sw:
+            sh.count("copies.string_hash_switched_between_source_and_copy")
         # mutate one side at a random node, then the other side must be unchanged
         side = rng.randrange(2)
         cand = [(p, v) for p, v in paths(va) if v is not None]
@@ -329,7 +342,9 @@ def shard_fn(shard, nshards, seed, tier, exe, npairs, ncopies):
         scr = side == 0 and any(t[0] == "K" for t in a)
         cmds += ["PUT %d" % side] + (["KSCR 1"] if scr else []) + ["D %d" % (1 - side), "S %d 0" % (1 - side)] + (["KSCR 0"] if scr else []) + ["PUT %d" % (1 - side)]
         cases.append((cid, cmds))
-        meta[cid] = ("copy", side, a, bool(mc), len(mc or []), nh, int(scr))
+        if sw:
+            cmds.append("HASHFN 0")
+        meta[cid] = ("copy", side, a, bool(mc), len(mc or []), nh, int(scr), nhist)
     # copies of nodes that use the library's userdata serializer with a deleter of the caller's: the copy gets its own string and the SAME deleter
     udmeta = {}
     for j in range(max(8, ncopies // nshards // 40)):
@@ -460,11 +475,12 @@ def shard_fn(shard, nshards, seed, tier, exe, npairs, ncopies):
             if has_nan(va):
                 sh.count("pairs.with_nan")
         else:
-            _, side, a, mutated, nmc, nh, scr = m
+            _, side, a, mutated, nmc, nh, scr, nhist = m
             va = toks_to_value(a)
             sh.evaluations += 8
-            if nh:
+            if nhist:
                 sh.count("copies.after_grow_shrink_history")
+            if nh:
                 lines = lines[:1] + lines[1 + nh:]
             rc = int(lines[1].split()[1])
             key = None
